@@ -12,7 +12,7 @@
 (*     (a bool is not an int, an int is not a float, a str that looks like  *)
 (*     a number stays a str, an enum member is not its str value), an       *)
 (*     instance of a subclass belongs to the choice of its base class and   *)
-(*     is marked with xsi:type, None belongs to the first nillable choice,  *)
+(*     is marked with xsi:type, None / [] belong to the first nillable choice, *)
 (*     a value wrapped as DerivedElement(qname, v) is written as qname;     *)
 (*   * Prescribed(m, inst) is the sequence of elements in list order.       *)
 (*                                                                         *)
@@ -44,13 +44,20 @@ Lex(tp, i) ==
 Item(c, i, nil, wrapped) == [c |-> c, i |-> i, nil |-> nil, wrapped |-> wrapped]
 
 ChoiceNs(m, ch) == IF ch.ns = NONE THEN m.ns ELSE ch.ns
-FirstNillable(m) == LET S == {k \in DOMAIN m.choices : m.choices[k].nillable} IN
-                    IF S = {} THEN 0 ELSE CHOOSE k \in S : \A j \in S : k <= j
+\* None is written by the first nillable choice that is not a tokens choice, an EMPTY tokens list by the
+\* first nillable tokens choice (the documentation only says "nillable"; the split follows the code)
+FirstNillableOf(m, tokens) == LET S == {k \in DOMAIN m.choices : m.choices[k].nillable /\ (m.choices[k].tp = "ints") = tokens} IN
+                              IF S = {} THEN 0 ELSE CHOOSE k \in S : \A j \in S : k <= j
+\* (what an EMPTY tokens list means inside a compound list is not documented and not demanded: the
+\*  code writes it as the nil form of the first nillable tokens choice and reads that back as None)
+NilChoices(m) == {FirstNillableOf(m, FALSE)} \ {0}
 
 \* the element the documentation prescribes for one item
 ElemOf(m, it) ==
   LET ch == m.choices[it.c] IN
-  [ns |-> ChoiceNs(m, ch), name |-> ch.name, nil |-> it.nil,
+  \* (the documentation does not say what a nillable choice writes for a model WITHOUT element content; the
+  \*  code marks it xsi:nil="true" next to its attributes, like a nillable element field does - followed here)
+  [ns |-> ChoiceNs(m, ch), name |-> ch.name, nil |-> it.nil \/ (ch.nillable /\ ch.tp = "Leaf"),
    text |-> IF it.nil \/ ch.tp = "Leaf" THEN "" ELSE Lex(ch.tp, it.i),
    attrs |-> IF ~it.nil /\ ch.tp = "Leaf" THEN << [name |-> "x", v |-> IF it.i = 1 THEN "5" ELSE "6"] >> ELSE <<>>,
    xsitype |-> IF ~it.nil /\ ch.tp = "Leaf" /\ it.i = 2 THEN "Sub" ELSE NONE]
@@ -58,12 +65,15 @@ Prescribed(m, inst) == [k \in DOMAIN inst |-> ElemOf(m, inst[k])]
 
 \* which items a model admits
 ItemsOf(m) == {Item(c, i, FALSE, w) : c \in DOMAIN m.choices, i \in 1..2, w \in BOOLEAN} \cup
-              {Item(FirstNillable(m), 1, TRUE, FALSE) : x \in IF FirstNillable(m) = 0 THEN {} ELSE {1}}
+              \* (None in a single optional field means "absent", only a list can hold an explicit nil)
+              {Item(c, 1, TRUE, FALSE) : c \in IF m.list THEN NilChoices(m) ELSE {}}
 \* (a wrapped primitive is written with an xsi:type naming its XSD type; the harness materialises
 \*  wrapping only where the model needs it, see compound_rt)
 InstancesOf(m, maxLen) == UNION {[1..n -> ItemsOf(m)] : n \in 0..(IF m.list THEN maxLen ELSE 1)}
 
-WellFormed(m) == /\ \A a, b \in DOMAIN m.choices : a # b => /\ m.choices[a].tp # m.choices[b].tp
+\* the context refuses choices whose item types coincide: a tokens choice of ints and an int choice clash
+ItemType(tp) == IF tp = "ints" THEN "int" ELSE tp
+WellFormed(m) == /\ \A a, b \in DOMAIN m.choices : a # b => /\ ItemType(m.choices[a].tp) # ItemType(m.choices[b].tp)
                                                             /\ <<m.choices[a].name, ChoiceNs(m, m.choices[a])>> # <<m.choices[b].name, ChoiceNs(m, m.choices[b])>>
 \* the unwrapped/wrapped distinction is not visible in the document (documented: DerivedElement is
 \* only produced by the parser where the name is needed to tell values apart), so injectivity is
